@@ -119,10 +119,20 @@ func str(bs []int) string {
 	return string(b)
 }
 
+// zeroPad: integer literals of the statement being rendered are written with leading zeros (decimal all the same)
+var zeroPad bool
+
+func num(n int64) string {
+	if zeroPad && n >= 0 {
+		return "0" + fmt.Sprint(n)
+	}
+	return fmt.Sprint(n)
+}
+
 func lit(v Val) string {
 	switch v.T {
 	case "i", "I":
-		return fmt.Sprint(v.V)
+		return num(int64(v.V))
 	case "s":
 		return "'" + str(v.S) + "'"
 	case "b":
@@ -179,6 +189,8 @@ func ref(r Ref) string {
 
 func render(q Query) string {
 	st := q.Style
+	zeroPad = st%8 == 5
+	defer func() { zeroPad = false }()
 	var items []string
 	for _, it := range q.List {
 		var s string
@@ -254,10 +266,10 @@ func render(q Query) string {
 	}
 	lim, off := "", ""
 	if q.Limit >= 0 {
-		lim = fmt.Sprintf(" %s %d", kw("LIMIT", st), q.Limit)
+		lim = fmt.Sprintf(" %s %s", kw("LIMIT", st), num(int64(q.Limit)))
 	}
 	if q.Offset >= 0 {
-		off = fmt.Sprintf(" %s %d", kw("OFFSET", st), q.Offset)
+		off = fmt.Sprintf(" %s %s", kw("OFFSET", st), num(int64(q.Offset)))
 	}
 	if st%4 >= 2 {
 		sb += off + lim
